@@ -24,3 +24,10 @@ for mode, mn in sorted(MODES.items()):
                               timeout={'quick': 1500, 'thorough': 3000},
                               desc='percussion channel 10, %s mode: program selects the kit (XG MSB 0x7E: SFX kits 128 up), key selects the entry, missing/blank kits fall back to kit 0, melodic banks never used (4 of 12 enumerated cases)' % mn.upper(),
                               bounds='kits {0, 5, 128+5} present; key 38; every velocity', stubs=PLAYER_STUBS))
+
+for mode, mn in ((2, 'xg'), (0, 'gm')):
+    OBLIGATIONS.append(Ob('C12.gsreset.' + mn, 'C12', 'ir/c12_banks.cpp', engine='ir', entry='harness_gsreset', defines=['MODE=%d' % mode],
+                          unwind=20, unwind_funcs=UF, unwindset={'memcmp.0': 40}, repo_tus=PLAYER_TUS, ir_opts=player_ir_opts(),
+                          tiers=('quick', 'thorough') if mode == 2 else ('thorough',), timeout={'quick': 900, 'thorough': 3000},
+                          desc='%s mode: CC0=126/127 turns channel 1 into a drum channel; after the GS reset SysEx a note plays the melodic instrument (MSB,0,program) again' % mn.upper(),
+                          bounds='one fixed call sequence (CC0, GS reset, bank/program, note-on); every velocity', stubs=PLAYER_STUBS))
